@@ -328,7 +328,21 @@ def finish(res, started):
         violations=len(res.violations),
     )
     os.makedirs(os.path.join(VERIF, "evidence"), exist_ok=True)
-    json.dump(evidence, open(os.path.join(VERIF, "evidence", f"{prop}.json"), "w"), indent=1)
+    epath = os.path.join(VERIF, "evidence", f"{prop}.json")
+    if prop == "C07" and os.environ.get("C07_MERGE") == "1" and os.path.exists(epath):
+        # the Rust monitor (rio-mon C07) wrote the evidence of this run a moment ago: add the FFI engines to it
+        base = json.load(open(epath))
+        cov = base["coverage"]
+        cov["ffi_engines"] = res.engines
+        cov["ffi_scenarios"] = res.scenarios
+        cov["evaluations"] = cov.get("evaluations", 0) + res.ops
+        cov["distinct_nontrivial"] = cov.get("distinct_nontrivial", 0) + res.scenarios
+        cov["inconclusive"] = cov.get("inconclusive", []) + inconclusive
+        cov["samples"] = cov.get("samples", []) + res.samples[:1]
+        base["violations"] = base.get("violations", 0) + len(res.violations)
+        base["wall_s"] = base.get("wall_s", 0) + (time.time() - started)
+        evidence = base
+    json.dump(evidence, open(epath, "w"), indent=1)
     print(f"{prop} {res.tier} seed={res.seed} scenarios={res.scenarios} checked_results={res.ops} violations={len(res.violations)} inconclusive={len(inconclusive)} wall={time.time() - started:.1f}s")
     for e in res.engines:
         print("  engine " + json.dumps(e))
